@@ -423,3 +423,121 @@ func (w *World) VisitMutating(name string, api int, target []byte, withValue boo
 	}
 	w.logf("%s=%s", label, keyList(got))
 }
+
+// RawRead is a reader operation for concurrent reference-counting scenarios:
+// it does not consult the model (a concurrent mutator may be changing it) and
+// checks only what holds for every version: the items handed out are live under
+// the counting contract when delivered and still after the visitor has been
+// descheduled, keys belong to universe and come in order, a value starts with
+// its key (the scenarios write such values) and scrubbed bytes never show.
+// kind: get:<key>:<v|k>, min, max, asc, desc, asc-keys, desc-keys, asc-stop0,
+// iter, iter-stop0.
+func (w *World) RawRead(name, kind string, universe [][]byte) {
+	c := w.Colls[name]
+	label := "Raw[" + kind + "](" + name + ")"
+	w.begin(label, true, false)
+	inU := func(k []byte) bool {
+		for _, u := range universe {
+			if bytes.Equal(u, k) {
+				return true
+			}
+		}
+		return false
+	}
+	checkItem := func(it *gkvlite.Item, withValue bool) []byte {
+		if it == nil {
+			w.Fail("concurrent", "raw-nil-item", "%s delivered a nil item", label)
+			return nil
+		}
+		if !w.ItemLive(it) {
+			w.Fail("refcount", "delivered-item-released", "%s delivered an item whose count is %d (released before: %v)", label, w.RC.Counts[it], w.RC.Dead[it])
+		}
+		k := append([]byte{}, it.Key...)
+		if !inU(k) {
+			w.Fail("refcount", "delivered-key-garbage", "%s delivered key %q, which was never stored", label, k)
+		}
+		if withValue && it.Val == nil {
+			w.Fail("concurrent", "raw-no-value", "%s delivered key %q without its value", label, k)
+		}
+		if it.Val != nil && (len(it.Val) == 0 || len(k) == 0 || it.Val[0] != k[0]) {
+			w.Fail("refcount", "delivered-value-garbage", "%s delivered key %q with value %s", label, k, vstr(it.Val))
+		}
+		return k
+	}
+	recheck := func(it *gkvlite.Item, k []byte) {
+		if it == nil {
+			return
+		}
+		if !w.ItemLive(it) || !bytes.Equal(it.Key, k) {
+			w.Fail("refcount", "item-released-while-held", "%s: item %q was released (count %d, key now %q) while the caller still held it", label, k, w.RC.Counts[it], it.Key)
+		}
+	}
+	var n int
+	var err error
+	switch {
+	case strings.HasPrefix(kind, "get:"):
+		parts := strings.Split(kind, ":")
+		withValue := parts[2] == "v"
+		var it *gkvlite.Item
+		it, err = c.GetItem([]byte(parts[1]), withValue)
+		if it != nil {
+			k := checkItem(it, withValue)
+			if !bytes.Equal(k, []byte(parts[1])) {
+				w.Fail("concurrent", "lookup-wrong-key", "%s returned key %q", label, k)
+			}
+			YieldCallback()
+			recheck(it, k)
+			w.release(w.St, c, it)
+			n = 1
+		}
+	case kind == "min" || kind == "max":
+		var it *gkvlite.Item
+		if kind == "min" {
+			it, err = c.MinItem(true)
+		} else {
+			it, err = c.MaxItem(true)
+		}
+		if it != nil {
+			k := checkItem(it, true)
+			YieldCallback()
+			recheck(it, k)
+			w.release(w.St, c, it)
+			n = 1
+		}
+	default:
+		desc := strings.HasPrefix(kind, "desc")
+		withValue := !strings.Contains(kind, "keys")
+		stop0 := strings.Contains(kind, "stop0")
+		var prev []byte
+		visit := func(it *gkvlite.Item) bool {
+			k := checkItem(it, withValue)
+			if prev != nil && k != nil && ((!desc && bytes.Compare(prev, k) >= 0) || (desc && bytes.Compare(prev, k) <= 0)) {
+				w.Fail("concurrent", "raw-order", "%s delivered %q after %q", label, k, prev)
+			}
+			prev = k
+			n++
+			YieldCallback()
+			recheck(it, k)
+			return !stop0
+		}
+		switch {
+		case strings.HasPrefix(kind, "iter"):
+			it := c.IterateAscend([]byte{}, true)
+			for it.Next() {
+				if !visit(it.Result()) {
+					break
+				}
+			}
+			it.Close()
+			err = it.Err()
+		case desc:
+			err = c.VisitItemsDescend([]byte("\xff\xff"), withValue, visit)
+		default:
+			err = c.VisitItemsAscend([]byte{}, withValue, visit)
+		}
+	}
+	if err != nil {
+		w.Fail("concurrent", "raw-error", "%s returned error %v", label, err)
+	}
+	w.logf("%s=%d", label, n)
+}
